@@ -114,6 +114,7 @@ type vfmWorld struct {
 	mu      sync.Mutex
 	pm      *pathManager
 	gates   []*vfmGate
+	draining bool
 	entered int
 	exited  int
 	incs    map[*path]int
@@ -151,8 +152,13 @@ func vfmInstallHooks() {
 		}
 		g := &vfmGate{pa: pa, c: c, release: make(chan struct{})}
 		w.mu.Lock()
-		w.gates = append(w.gates, g)
 		w.entered++
+		if w.draining {
+			// the run is over: late arrivals pass straight through
+			w.mu.Unlock()
+			return
+		}
+		w.gates = append(w.gates, g)
 		w.mu.Unlock()
 		<-g.release
 	}
@@ -193,6 +199,18 @@ func (w *vfmWorld) incOf(pa *path) int {
 // by runtime.Stack with f as its frame even before it has run, so after a barrier through the
 // manager loop (no doReloadConf in progress) the count is exact, whatever the machine load.
 func (w *vfmWorld) settle() int {
+	n := vfmStackCount()
+	w.mu.Lock()
+	atGate := w.entered - w.exited
+	w.mu.Unlock()
+	if atGate > n {
+		n = atGate
+	}
+	return n
+}
+
+// goroutines started by `go pa.reloadConf(c)` in doReloadConf that have not returned yet
+func vfmStackCount() int {
 	buf := make([]byte, 1<<20)
 	for {
 		n := runtime.Stack(buf, true)
@@ -204,14 +222,7 @@ func (w *vfmWorld) settle() int {
 	}
 	// goroutines started by `go pa.reloadConf(c)` in doReloadConf (before their first run they
 	// only show the compiler's go-wrapper frame, so they are recognised by their creator)
-	n := bytes.Count(buf, []byte("created by github.com/bluenviron/mediamtx/internal/core.(*pathManager).doReloadConf"))
-	w.mu.Lock()
-	atGate := w.entered - w.exited
-	w.mu.Unlock()
-	if atGate > n {
-		n = atGate
-	}
-	return n
+	return bytes.Count(buf, []byte("created by github.com/bluenviron/mediamtx/internal/core.(*pathManager).doReloadConf"))
 }
 
 // vfmSelfTest makes sure that in-flight deliveries are visible to settle() the instant the
@@ -372,14 +383,12 @@ func vfmExec(t testing.TB, r *vfmRun, init map[string]vfmConf) {
 
 	// release whatever is still waiting at the gate, then shut down
 	w.mu.Lock()
+	w.draining = true
 	for _, g := range w.gates {
 		close(g.release)
 	}
 	w.gates = nil
 	w.mu.Unlock()
-	vfmCurMu.Lock()
-	vfmCur = nil
-	vfmCurMu.Unlock()
 	done := make(chan struct{})
 	go func() { w.pm.close(); close(done) }()
 	select {
@@ -388,9 +397,16 @@ func vfmExec(t testing.TB, r *vfmRun, init map[string]vfmConf) {
 		t.Fatalf("verif: pathManager.close() hangs")
 	}
 	// the released delivery goroutines must be gone before the next run counts its own
-	for i := 0; i < 100000 && w.settle() != 0; i++ {
-		time.Sleep(100 * time.Microsecond)
+	deadline := time.Now().Add(20 * time.Second)
+	for vfmStackCount() != 0 {
+		if time.Now().After(deadline) {
+			t.Fatalf("verif: delivery goroutines of a finished run do not exit")
+		}
+		time.Sleep(200 * time.Microsecond)
 	}
+	vfmCurMu.Lock()
+	vfmCur = nil
+	vfmCurMu.Unlock()
 	r.H = nil
 }
 
